@@ -20,6 +20,9 @@ PREFILTER = re.compile(r'\.\s*value\b|augments|setattr|__dict__')
 # the one justified writer outside options.py (DESIGN A.17); the justification is re-verified on every run
 JUSTIFIED = {(INTERP, 'Interpreter.do_subproject'): 'forced_options (default_library static|shared built from a boolean by its only producer)'}
 
+# container-protocol names say nothing about the element type; the receiver's own origins decide for them
+GENERIC = {'items', 'values', 'keys', 'get', 'pop', 'copy', 'setdefault', '__getitem__', '__iter__', '__next__'}
+
 POSITIVE_EXAMPLE = '''
 def configure(store: OptionStore, key, node: StringNode):
     opt = store.get_value_object(key)
@@ -103,7 +106,7 @@ class Universe:
                     self.types.add(t)
                     changed = True
         for q, f in m.funcs().items():
-            if f.returns is not None and idents(f.returns) & self.types:
+            if f.returns is not None and f.name not in GENERIC and idents(f.returns) & self.types:
                 self.api.add(f.name)
         if not deep:
             return
@@ -432,6 +435,10 @@ def scan(ctx: RuleCtx) -> None:
     mods = [ctx.repo.module(rel) for rel in files]
     for m in mods:
         uni.absorb(m)
+    if ctx.thorough:
+        for rel in ctx.repo.py_files('mesonbuild'):
+            if 'Option' in ctx.repo.read(rel):
+                uni.absorb(ctx.repo.module(rel))
     nvalue = naug = 0
     justified_seen = 0
     for m in mods:
